@@ -459,6 +459,9 @@ register(PropertySpec(
              "every evaluation call site is classified value/condition by the resolved field of its receiver; at every "
              "value-role site the callee is entered through a value-role entry whose per-class constant switches the "
              "filter off exactly for the filter-owning classes"),
+        Rule("REENTRANT-FLAG", values.rule_reentrant_flag, 1,
+             "a mapping generator reads the request for false rows from its own call's argument, not from the attribute a "
+             "re-entrant evaluation of the same (shared) expression object overwrites"),
         Rule("APPLY-ALWAYS", _lazy("extra", "rule_apply_always"), 1,
              "the comparison / membership operator is applied to the operand values on every path, None included"),
         Rule("LITERAL-WRAP", _lazy("extra", "rule_literal_wrap"), 1,
